@@ -10,3 +10,9 @@ pub mod core_contracts;
 pub mod c01;
 pub mod life;
 pub mod c03;
+pub mod c07;
+pub mod c09;
+pub mod c10;
+pub mod c11;
+pub mod c14;
+pub mod c16;
